@@ -20,8 +20,6 @@ import vlib
 PID = "C02"
 EMASS = 0.51099906
 WINDOW_MODES = {4, 5, 6, 8, 10, 13, 14, 15, 16, 19}
-# genuine defects recorded in known_findings.json: the port has no Ti46low / W184low / Pt192low routine
-MISSING_LOW = {"Ca46": "Ti46low", "Os184": "W184low", "Os192": "Pt192low"}
 
 
 def e0_of(ent, lv, mode):
@@ -240,15 +238,12 @@ def run(tier, replay):
         if cls in ("agree", "knife-edge-excluded", "ref-fermi-clamp-excluded"):
             continue
         det = rj["detail"]
-        if m["iso"] in MISSING_LOW and m["level"] > 0 and cls in ("trace", "draws", "count"):
-            key = "%s:missing-deexcitation:%s" % (m["iso"], MISSING_LOW[m["iso"]])
-        else:
-            site = ""
-            if cls == "trace":
-                mm = re.search(r"port (\S+?)\(", det)
-                m2 = re.search(r"reference (\S+?)\(", det)
-                site = "%s/%s" % (mm.group(1) if mm else "-", m2.group(1) if m2 else "-")
-            key = "%s.%d:mode%d:%s:%s" % (m["iso"], m["level"], m["mode"], cls, site)
+        site = ""
+        if cls == "trace":
+            mm = re.search(r"port (\S+?)\(", det)
+            m2 = re.search(r"reference (\S+?)\(", det)
+            site = "%s/%s" % (mm.group(1) if mm else "-", m2.group(1) if m2 else "-")
+        key = "%s.%d:mode%d:%s:%s" % (m["iso"], m["level"], m["mode"], cls, site)
         ck.violation(key, "%s level %d mode %d [%s] %s: %s" % (m["iso"], m["level"], m["mode"], m["kind"], rj["id"], det),
                      {"job": m["job"], "result": rj})
     # ---- 4. TLC trace validation
